@@ -438,7 +438,32 @@ def definition_contracts():
         env=dict(FD=_plain_fd(True)),
         ensures=['result.name == FDNAME', 'FD.name == FDNAME'],
         serves=('C12', 'C05'), native=False))
+    # ... > the payload's __name__, translated by the convention of THIS
+    # registration; the decorator-time definition shared by all registrations
+    # of the function stays unnamed (a context with another convention must
+    # not inherit the first one's spelling)
+    CF = ('[e for e in calls if e[0] == '
+          '"contract:specs.convert_function_name"]')
+    cs.append(Contract(
+        M + 'get_function_definition',
+        name='specs.get_function_definition/name=payload',
+        params=dict(func=TVal, name=None, function=None, method=None,
+                    convention=TVal),
+        env=dict(FD=_plain_fd(False)),
+        ensures=['FD.name is None',
+                 'len(%s) == 1 and %s[0][1][0] == ufn("a.__name__", '
+                 'FD.payload, ret="Str") and %s[0][1][1] == convention and '
+                 'result.name == %s[0][2]' % (CF, CF, CF, CF)],
+        serves=('C12', 'C05', 'C17'), native=False))
     return cs
+
+
+def setup_definition_named(world):
+    setup_definition(world)
+    from vlib.pyvc import models
+    world.callee_contract(M + 'convert_function_name', result=TStr)
+    world.opaque_attrs['__name__'] = lambda recv, it: models.apply_uf(
+        'a.__name__', (recv,), 'Str')
 
 
 # ============ the delegate built by get_delegate, invoked (C04 scoping) =====
